@@ -13,5 +13,7 @@ open Irismod Irismod.Service Irismod.Props.C07
 #print axioms tally_kept_by_withdrawal
 #print axioms tally_kept_by_answer
 #print axioms w2_withdrawal
+#print axioms tally_step
+#print axioms tally_reachable
 -- non-vacuity: a promotion-free copy of the witness state satisfies the invariants, the due batch is issued, paid (10stake = the fee recorded), answered and the fee split 1 / 9 at 10% tax
 #eval s!"nonvacuous {let s0 : State := { w1 with binds := [(("s1", "A0"), { w1bind with pricing := { denom := "stake", amount := 10 } })], params := { tax := ⟨100000000000000000⟩ }, owners := [("A0", "A3")] }; let s1 := newBatch s0 "c"; let rid : ReqId := ⟨"c", 1, 20, 0⟩; s1.active == [rid] && Sdk.Bank.balOf s1.bank reqAcc "stake" == 10 && Sdk.Bank.balOf s1.bank "A5" "stake" == 990 && (match keeperRespond s1 "A0" rid true with | .ok s2 => Sdk.Bank.balOf s2.bank fcAcc "stake" == 1 && AMap.getD s2.earned ("A0", "stake") 0 == 9 && AMap.getD s2.oearned ("A3", "stake") 0 == 9 && Sdk.Bank.balOf s2.bank reqAcc "stake" == 9 | .error _ => false)}"
